@@ -138,8 +138,23 @@ class C20(Check):
                                 heavy = ('tuple', 'sparse_int', 'sparse_empty', 'dense_str', 'dense_str_mid', 'tuple_str_last', 'dense_cat_last', 'sparse_catval', 'userstr_first')
                                 if n == 3 and (sx[0] in heavy or sa[0] in heavy): continue
                                 yield {'terms': full, 'x': list(sx), 'a': list(sa)}
+        yield from self.const_cases(tier)
         yield from self.reuse_cases(tier)
         yield from self.large_cases(tier)
+
+    def const_cases(self, tier):
+        """Several numeric constants in one list (the constant of the encoding is their SUM), incl. equal and hash-equal ones."""
+        pairs = [(1, 1), (2, 2.0), (0.5, 0.5), (1, 2.5), (0, 3), (1, 1, 1)]
+        shapes = [('dense', 2), ('scalar',), ('sparse_str', 2), ('str',), ('none',)]
+        for tl in (['x'], ['x', 'a'], ['xa'], ['xx', 'a']):
+            for cs in pairs:
+                for layout in ('front', 'back', 'split'):
+                    if layout == 'front': full = list(cs) + tl
+                    elif layout == 'back': full = tl + list(cs)
+                    else: full = [cs[0]] + tl + list(cs[1:])
+                    for sx in shapes:
+                        for sa in shapes[:3]:
+                            yield {'terms': full, 'x': list(sx), 'a': list(sa)}
 
     def reuse_cases(self, tier):
         """One encoder object used for several consecutive calls with different inputs (learners keep one encoder for
